@@ -59,6 +59,7 @@ func runC06(r *fw.Run, p *fw.Program) {
 	c06Force(r, p)
 	c06Param(r, p, reach)
 	c06BufSlice(r, p, reach)
+	c06Alloc(r, p)
 	c06Sym(r, p)
 	c06OutType(r, p)
 }
